@@ -155,6 +155,14 @@ func (p *parser) parseSequence(depth int) node {
 		list = append(list, st)
 		p.skipBlanks()
 		c := p.peek()
+		for c == '|' && p.peekAt(1) != '|' && p.in.external != nil {
+			// rule 12b (only with the external-program hook): '|' binds tighter than '&'
+			p.i++
+			right := p.parseStatement(depth)
+			list[len(list)-1] = joinPipe(list[len(list)-1], right)
+			p.skipBlanks()
+			c = p.peek()
+		}
 		if c == '&' {
 			if p.peekAt(1) == '&' {
 				p.i += 2
